@@ -67,3 +67,7 @@ def replay(ctx, data, log):
         b = data.get("budget", 100000)
         o = vlib.nlh("eval", ["%d %s" % (b, vlib.hexs(data["source"]))], tag="c04r")[0]
         log("source: %s (budget %s)\nimplementation now: %s\nrecorded: %s" % (data["source"], b, o, data.get("observed")))
+
+
+def search(ctx, log):
+    progcheck.search_programs(ctx, log, n=4000 if ctx.quick else 40000)
